@@ -8,7 +8,7 @@ from vlib import *
 def main():
     c = Check('C15')
     exe = build_harness('asan', 'bus_driver', ['bus_driver.cpp', 'vbus.cpp'], wraps=WRAPS_BUS)
-    n = 60000 if c.thorough else 150
+    n = 150000 if c.thorough else 1200
     cmds = [[exe, 'mode=c15', 'filter=c', 'seed=%d' % (c.seed * 100 + i), 'n=%d' % n] for i in range(32)]
     res = run_shards(cmds, timeout=3000 if c.thorough else 900)
     c.add_result(res)
